@@ -315,7 +315,7 @@ func checkC02(res *Result) {
 			res.check(isDedupe, "C02-R5", fname(fn), p.pos(r), "a success return yields the de-duplicated, self-excluded list", "returns "+valueLabel(v)+" (not the result of dedupeIRIs)")
 			if c, ok := v.(*ssa.Call); ok && isDedupe {
 				fromDB := anyBackward(g, c.Call.Args[0], func(x ssa.Value) bool { return isCallNamed(x, "Database.InboxForActor") })
-				fromRemote := anyBackward(g, c.Call.Args[0], func(x ssa.Value) bool { return isCallNamed(x, "pub.getInboxes") })
+				fromRemote := anyBackward(g, c.Call.Args[0], func(x ssa.Value) bool { return isCallNamed(x, "pub.getInboxes") || isCallNamed(x, "resolveActors") })
 				res.check(fromDB && fromRemote, "C02-R5", fname(fn), p.pos(c), "both stored and remotely resolved inboxes are delivered to", fmt.Sprintf("from Database: %v, from remote actors: %v", fromDB, fromRemote))
 				ign := c.Call.Args[1]
 				chain := anyBackward(g, ign, func(x ssa.Value) bool { return isCallNamed(x, "pub.getInbox") }) &&
